@@ -447,7 +447,9 @@ K_SHM = "crash:shm-created-not-truncated-survivor-hangs"      # fixed in /repo b
 K_STATIC = "crash:service-create-before-unlock-static-config-stays"
 K_SVC_DROP = "crash:service-drop-tag-first-orphans-configs"
 K_LISTENER = "crash:listener-create-residue-event-mgmt"
-ROOT_CAUSE_KEYS = [K_NODE_CREATE, K_NO_DETAILS, K_NODE_DROP, K_TAG, K_STATIC, K_SVC_DROP, K_LISTENER]
+K_CLEANER_PTAG = "crash:cleaner-port-tag-removed-registry-entry-stays"
+K_CONN = "crash:connection-initialised-port-not-reserved-residue"
+ROOT_CAUSE_KEYS = [K_NODE_CREATE, K_NO_DETAILS, K_NODE_DROP, K_TAG, K_STATIC, K_SVC_DROP, K_LISTENER, K_CLEANER_PTAG, K_CONN]
 
 
 def _residue(sym, prefix="residue-after-cleanup:"):
@@ -577,6 +579,33 @@ def classify(process, wk, at, syms, uname, done_win=None, done_all=None):
         rs = [x for x in res_sets if x is not None]
         if len(rs) == 1 and rs[0] == pred and all(_residue(x) is not None or x == "probe-differs:exists:true" for x in syms):
             return K_SVC_DROP
+    last = da[-1] if da else ""
+    lf = last.split(" ")
+    last_call, last_path, last_args = (lf[0], lf[1], lf[2]) if len(lf) >= 4 and lf[-1] == "ok" else ("", "", "")
+    svc_kinds = {"dynamic-config", "static-config", "blackboard_data", "blackboard_mgmt"}
+    # (7b) same root cause, a service that has OTHER users: the process died right behind the removal of its service tag (its
+    #      last performed call), i.e. before deregister_node_id: no tag leads the cleanup to the registry entry any more, the
+    #      node slot is lost, the service is never removed.  victim: in a drop_s window; cleaner: the tag of a node the cleaner
+    #      created itself (the helper node of send_dead_node_signal dropping its service)
+    if last_call in ("remove", "unlink") and last_path.endswith(".service_tag") and syms and \
+            ((not cleaner and wk.startswith("drop_s@") and not re.match(r"^drop_s@(full_)?create_", wk)) or
+             (cleaner and any(x in last_path for x in node_ids(_created(da, r"^R/nodes/#\d+$"))))) and \
+            all(re.match(r"^probe-differs:svc n1 \w+:err:ExceedsMaxNumberOfNodes$", x) or
+                (_residue(x, "residue-after-shutdown:") is not None and _residue(x, "residue-after-shutdown:") <= svc_kinds) for x in syms):
+        return K_SVC_DROP
+    # (9) the CLEANER died right behind the removal of a port tag of the dead node (last performed call), before the port's
+    #     registry entry is released: the next cleanup gets AlreadyRemoved from remove_port_tag, treats it as a failure and
+    #     skips the port for ever (service/mod.rs __internal_remove_node_from_service, cleanup_port_resources)
+    if cleaner and last_call in ("remove", "unlink") and last_path.endswith(".port_tag") and syms and \
+            not any(x in last_path for x in node_ids(_created(da, r"^R/nodes/#\d+$"))) and \
+            all(x.startswith("probe-differs:") or _residue(x, "residue-after-shutdown:") == {"connection"} for x in syms):
+        return K_CLEANER_PTAG
+    # (10) the process died right behind the fchmod 0600 that finalises a connection segment it created in this window (last
+    #      performed call), before it reserved its port in the connection state: state 0 never becomes MarkedForDestruction
+    if not cleaner and last_call == "fchmod" and last_path.endswith(".connection") and "mode=0600" in last_args and \
+            _created(dw, "^" + re.escape(last_path) + "$") and len(syms) == 1 and \
+            (_residue(syms[0]) == {"connection"} or _residue(syms[0], "residue-after-shutdown:") == {"connection"}):
+        return K_CONN
     # (8) listener's event segment is not reachable through the port tag
     if one_residue and one_residue <= {"event_mgmt", "event-connection"} and not cleaner:
         if wk.startswith("port-create-lis@") and _created(dw, r"\.port_tag$") and \
@@ -617,6 +646,26 @@ def classifier_selftest():
         (("victim", "drop_s@create_ps", at, [r + "dynamic-config,static-config"], "nobody", [], [mk, tag, stat_, dyn]), None),   # tag not removed yet
         (("victim", "drop_s@open_ps", at, [r + "dynamic-config,static-config"], "nobody", [rmtag], [mk, tag, rmtag]), None),   # not the only user
         (("victim", "drop_s@create_ps", at, [r + "static-config"], "nobody", [rmtag], [mk, tag, stat_, dyn, rmtag]), None),     # residue != prediction
+    ]
+    conn = "shm_open /dev/shm/P_H9_#7_#10.connection flags=O_RDWR|O_CREAT|O_EXCL,mode=0200 ok"
+    connfin = "fchmod /dev/shm/P_H9_#7_#10.connection mode=0600 ok"
+    rmptag = "remove R/nodes/#1/P_#4.port_tag - ok"
+    nodes_probe = "probe-differs:svc n1 ps:err:ExceedsMaxNumberOfNodes"
+    rs = "residue-after-shutdown:"
+    tests += [
+        (("victim", "drop_s@port_pub", at, [nodes_probe + "", rs + "dynamic-config,static-config"], "self", [rmtag], [mk, tag, tagfin, rmtag]), K_SVC_DROP),
+        (("victim", "drop_s@port_pub", at, [nodes_probe, rs + "dynamic-config,static-config"], "self", [rmtag, "munmap /dev/shm/P_H5_#6.dynamic len=_ ok"],
+          [mk, tag, tagfin, rmtag, "munmap /dev/shm/P_H5_#6.dynamic len=_ ok"]), None),          # tag removal is not the last performed call
+        (("victim", "svc-open-ps", at, [nodes_probe, rs + "dynamic-config,static-config"], "self", [tag], [mk, tag]), None),   # the seeded open reordering
+        (("cleaner", "cleaner@full_ev", at, [nodes_probe.replace("ps", "ev")], "self", [], ["mkdir R/nodes/#10 mode=0750 ok", "remove R/nodes/#10/P_H3.service_tag - ok"]), K_SVC_DROP),
+        (("cleaner", "cleaner@full_ev", at, [nodes_probe.replace("ps", "ev")], "self", [], ["remove R/nodes/#1/P_H3.service_tag - ok"]), None),   # the dead node's tag
+        (("cleaner", "cleaner@full_ps", at, ["probe-differs:send:ok:3"], "self", [], [rmptag]), K_CLEANER_PTAG),
+        (("cleaner", "cleaner@full_ps", at, ["probe-differs:send:ok:3"], "self", [], [rmptag, "stat R/nodes/#1 - ok"]), None),           # not the last call
+        (("victim", "drop_p@port_pub", at, ["probe-differs:send:ok:3"], "self", [rmptag], [rmptag]), None),                               # not the cleaner
+        (("victim", "port-create-pub@port_pub", at, [rs + "connection"], "self", [conn, connfin], [mk, conn, connfin]), K_CONN),
+        (("victim", "port-create-pub@port_pub", at, [rs + "connection"], "self", [conn], [mk, conn]), None),                              # not finalised: other state
+        (("victim", "port-create-pub@port_pub", at, [rs + "connection"], "self", [conn, connfin, "stat R/nodes/#2 - ok"], [mk, conn, connfin, "stat R/nodes/#2 - ok"]), None),
+        (("victim", "port-create-pub@port_pub", at, [r + "connection,data"], "self", [conn, connfin], [mk, conn, connfin]), None),        # more residue than predicted
     ]
     bad = []
     for args, want in tests:
@@ -811,7 +860,9 @@ def enumerate_as(ctx, tdir, scs, user, th, model_steps, classes, stats):
         ks = select_points(c0, th, int(os.environ.get("C04_STRIDE", "12")), nme, stats["seen_roles"])
         for k in ks:
             jobs.append((nme, k, False, None, False))
-            if th:
+            if th or MUTATING.search(c0[k - 1]):
+                # kill right BEHIND the call: not the same as kill-before the next gated call -- the shared-memory writes
+                # (registry, connection state) that follow the call un-gated have not happened yet
                 jobs.append((nme, k, True, None, False))
         if s["cleaner"]:
             rc_ = refs[(nme, "c")]
@@ -826,7 +877,7 @@ def enumerate_as(ctx, tdir, scs, user, th, model_steps, classes, stats):
             info[nme]["cctrace"] = cc
             for j in select_points(cc, th, int(os.environ.get("C04_CSTRIDE", "25")), "cleaner", stats["seen_croles"]):
                 jobs.append((nme, None, False, j, False))
-                if th:
+                if th or MUTATING.search(cc[j - 1]):
                     jobs.append((nme, None, False, j, True))
     ctx.log("user %s: reference runs of %d scenarios, %.1fs; %d crash cases selected" % (uname, len(info), time.time() - t_ref, len(jobs)))
     t_enum = time.time()
@@ -879,8 +930,10 @@ def enumerate_as(ctx, tdir, scs, user, th, model_steps, classes, stats):
         tr = info[nme]["ctrace"] if ck is None else info[nme]["cctrace"]
         idx = k if ck is None else ck
         mut = 4 if (MUTATING.search(tr[idx - 1]) or (idx >= 2 and MUTATING.search(tr[idx - 2]))) else 5
-        if ck is None and not ka and (nme, k) in reps:
+        if ck is None and (nme, k) in reps and (not ka or MUTATING.search(tr[idx - 1])):
             mut = reps[(nme, k)]
+        elif ck is not None and cka and MUTATING.search(tr[idx - 1]):
+            mut = 3
         return (mut, hashlib.sha1(("%s|%s|%s" % (ctx.seed, uname, j)).encode()).hexdigest())
     have = {(j[0], j[1]) for j in jobs if j[3] is None and not j[2]}
     for nme_, k_ in sorted(reps):
@@ -1094,11 +1147,6 @@ def run(ctx):
             continue
         if c.get("root_cause"):
             continue                                  # a stuck cleanup loop with a definite error result is not timing dependent
-        nconf = sum(1 for x in classes.values() if "confirmed" in x)
-        if nconf >= int(os.environ.get("C04_MAX_CONFIRM", "10" if th else "3")):
-            # never drop an unkeyed class: beyond the cap it is reported without the isolated re-run
-            ctx.notes.append("class %s (%d cases): timing-sensitive symptom reported without an isolated re-run (confirmation cap reached)" % (key, c["count"]))
-            continue
         a = c["first"]["args"]
         old = (PHASE_TIMEOUT, VICTIM_TIMEOUT)
         PHASE_TIMEOUT, VICTIM_TIMEOUT = 3 * old[0], 3 * old[1]
